@@ -249,6 +249,8 @@ func (s *Session) readHandshake(msg Message) error {
 		s.msgCache[2] = res.InitDone
 		s.cipherOut, s.cipherIn = res.CipherOut, res.CipherIn
 		s.remoteKey = res.RemoteKey
+		// application data may arrive before the RespDone does: data counters start here
+		s.nonce = noncePostHandshake
 		s.hsIndex = 2 // the initiator doesn't know if the server got the initDone yet.
 	case !s.isInit && s.hsIndex == 1 && nonce == nonceInitDone:
 		res, err := readInitDone(s.hs, &s.remoteKey, s.cipherIn, s.cipherOut, msg)
